@@ -1294,3 +1294,200 @@ Proof.
   - pose proof (add_rows_trie_order _ _ _ _ _ _ _ _ (SInv_root r) Ha) as Ht.
     cbn zeta in Ht. rewrite Eb in Ht. cbn [tname app] in Ht. subst all. rewrite Hn. exact Ht.
 Qed.
+
+(* ======================================================================================== *)
+(* 14. any tree with distinct sibling names satisfies the invariant for X = its own paths     *)
+
+Lemma dedup_NoDup : forall l seen,
+  NoDup l -> (forall x, In x l -> ~ In x seen) -> dedup seen l = l.
+Proof.
+  induction l as [|x l IH]; intros seen Hn Hd; [reflexivity|]. cbn [dedup].
+  inversion Hn as [|? ? Hx Hl]; subst.
+  rewrite (proj2 (mem_path_false x seen)) by (apply Hd; now left). f_equal.
+  apply IH; [exact Hl|]. intros y Hy [E|Hs]; [subst; contradiction|].
+  apply (Hd y); [now right|exact Hs].
+Qed.
+
+Lemma NoDup_map_inj {A B} (f : A -> B) l :
+  (forall a b, f a = f b -> a = b) -> NoDup l -> NoDup (map f l).
+Proof.
+  intros Hf Hn. induction Hn as [|x l Hx Hl IH]; cbn; constructor; [|exact IH].
+  intros H. apply in_map_iff in H as (y & E & Hy). apply Hf in E. subst. contradiction.
+Qed.
+
+Lemma children_of_paths_kid p0 k : children_of (paths_from p0 k) p0 = [p0 ++ [tname k]].
+Proof.
+  destruct k as [g n a ks]. rewrite paths_from_unfold. cbn [tname].
+  change ((p0 ++ [n]) :: ?l) with ([p0 ++ [n]] ++ l). rewrite children_of_app.
+  rewrite (children_of_nil (flat_map _ _)).
+  - cbn. rewrite removelast_last, path_eqb_refl. destruct (p0 ++ [n]) eqn:E; [|reflexivity].
+    destruct p0; discriminate.
+  - intros d x Hd E. apply in_flat_map in Hd as (k & _ & Hd). apply paths_from_shape in Hd as [l ->].
+    apply (f_equal (@length str)) in E. rewrite !app_length in E. cbn in E. lia.
+Qed.
+
+Lemma children_of_flat_kids p0 ks :
+  children_of (flat_map (paths_from p0) ks) p0 = map (fun k => p0 ++ [tname k]) ks.
+Proof.
+  induction ks as [|k ks IH]; [reflexivity|]. cbn [flat_map map].
+  now rewrite children_of_app, children_of_paths_kid, IH.
+Qed.
+
+Lemma trie_inv_self : forall s pre, sib_ok s -> trie_inv (paths_from pre s) pre s.
+Proof.
+  induction s as [g n a ks IH] using tree_ind'. intros pre Hw.
+  apply sib_ok_kids in Hw as [Hnd Hwk]. cbn [tkids] in *.
+  apply trie_inv_unfold. rewrite paths_from_unfold. set (p0 := pre ++ [n]).
+  change (p0 :: ?l) with ([p0] ++ l). split.
+  - rewrite children_of_app, children_of_flat_kids.
+    replace (children_of [p0] p0) with (@nil path)
+      by (symmetry; rewrite <- (app_nil_r p0) at 2; apply single_children_below).
+    cbn [app]. symmetry. apply dedup_NoDup; [|intros x _ []].
+    rewrite <- (map_map tname (fun nm => p0 ++ [nm])). apply NoDup_map_inj; [|exact Hnd].
+    intros x y E. apply app_inv_head in E. now inversion E.
+  - apply Forall_forall. intros k Hk. rewrite Forall_forall in IH, Hwk.
+    eapply trie_inv_ext; [|apply (IH k Hk p0 (Hwk k Hk))].
+    intros q Hq. apply paths_from_shape in Hq as [l ->].
+    destruct (in_split _ _ Hk) as (l1 & l2 & ->).
+    rewrite flat_map_app. cbn [flat_map]. rewrite !children_of_app.
+    rewrite map_app in Hnd. cbn [map] in Hnd. apply NoDup_remove_2 in Hnd.
+    assert (Hoff : forall l', (forall k', In k' l' -> tname k' <> tname k) ->
+                   children_of (flat_map (paths_from p0) l') (p0 ++ tname k :: l) = []).
+    { intros l' Hl'. apply children_of_nil. intros d x Hd E.
+      apply in_flat_map in Hd as (k' & Hk' & Hd). apply paths_from_shape in Hd as [l0 ->].
+      rewrite <- app_assoc in E. apply app_inv_head in E. cbn in E. inversion E.
+      now apply (Hl' k' Hk'). }
+    rewrite single_children_below.
+    rewrite (Hoff l1), (Hoff l2).
+    + now rewrite app_nil_r.
+    + intros k' Hk' E. apply Hnd. apply in_or_app. right. rewrite <- E. now apply in_map.
+    + intros k' Hk' E. apply Hnd. apply in_or_app. left. rewrite <- E. now apply in_map.
+Qed.
+
+Lemma SInv_self t : sib_ok t -> SInv (paths t) t.
+Proof.
+  intros Hw. split; [exact Hw|]. split; [apply (trie_inv_self t [] Hw)|]. split.
+  - intros l H. exact H.
+  - intros q H. exact H.
+Qed.
+
+(* extending an existing tree: the result is the trie of (its paths ++ all prefixes of the
+   given paths), children in order of first appearance (the old children first, in their order) *)
+Theorem add_rows_extends tsep sep rows t acc t' ps :
+  sib_ok t -> add_rows t tsep sep true rows acc = (t', Ret ps) ->
+  let all := dedup [] (paths t ++ closure (branches sep rows)) in
+  paths t' = trie_pre (max_len all) all [tname t].
+Proof. intros Hw. apply add_rows_trie_order. now apply SInv_self. Qed.
+
+(* ======================================================================================== *)
+(* 15. duplicate names disallowed: all names stay distinct                                    *)
+
+Definition names (t : tree) : list str := map tname (pre t).
+
+Lemma pre_unfold g n a ks : pre (T g n a ks) = T g n a ks :: flat_map pre ks.
+Proof. reflexivity. Qed.
+
+Lemma names_unfold g n a ks : names (T g n a ks) = n :: flat_map names ks.
+Proof.
+  unfold names. rewrite pre_unfold. cbn [map tname]. f_equal.
+  induction ks as [|k ks IH]; [reflexivity|]. cbn [flat_map]. now rewrite map_app, IH.
+Qed.
+
+Lemma find_all_nil nm : forall t, find_all nm t = [] -> ~ In nm (names t).
+Proof.
+  induction t as [g n a ks IH] using tree_ind'. intros H. rewrite names_unfold.
+  cbn [find_all] in H. apply app_eq_nil in H as [H1 H2].
+  intros [E|Hin].
+  - subst. rewrite str_eqb_refl in H1. discriminate.
+  - clear H1. revert H2. generalize 0. induction ks as [|k ks IHk]; intros i H2; [contradiction|].
+    inversion IH as [|? ? Hk Hks]; subst.
+    apply app_eq_nil in H2 as [H2 H3]. cbn [flat_map] in Hin. apply in_app_or in Hin as [Hin|Hin].
+    + apply Hk; [|exact Hin]. destruct (find_all nm k); [reflexivity|discriminate].
+    + exact (IHk Hks Hin (S i) H3).
+Qed.
+
+Lemma flat_map_upd_nth_perm {A B} (F : A -> list B) (f : A -> A) (E : list B) : forall i l k,
+  nth_error l i = Some k -> Permutation (F (f k)) (E ++ F k) ->
+  Permutation (flat_map F (upd_nth i f l)) (E ++ flat_map F l).
+Proof.
+  induction i as [|i IH]; intros [|y l] k H HP; cbn in H; try discriminate.
+  - inversion H; subst. cbn. rewrite HP. now rewrite app_assoc.
+  - cbn [upd_nth flat_map]. rewrite (IH l k H HP).
+    rewrite !app_assoc. apply Permutation_app_tail. apply Permutation_app_comm.
+Qed.
+
+Lemma names_add_kid c : forall parent t pt,
+  subtree_at t parent = Some pt ->
+  Permutation (names (upd_at parent (add_kid c) t)) (names c ++ names t).
+Proof.
+  induction parent as [|i parent IH]; intros t pt H; cbn in H.
+  - inversion H; subst pt. destruct t as [g n a ks]. cbn [upd_at add_kid].
+    rewrite !names_unfold, flat_map_app. cbn [flat_map]. rewrite app_nil_r.
+    apply Permutation_cons_app. apply Permutation_app_comm.
+  - destruct t as [g n a ks]. cbn [tkids] in H. rewrite upd_at_cons, !names_unfold.
+    destruct (nth_error ks i) as [k|] eqn:Hk; [|discriminate].
+    apply Permutation_cons_app.
+    eapply flat_map_upd_nth_perm; [exact Hk|]. now apply (IH k pt).
+Qed.
+
+Lemma names_set_attrs p na : forall t, names (upd_at p (set_node_attrs na) t) = names t.
+Proof.
+  induction p as [|i p IH]; intros [g n a ks]; [reflexivity|].
+  rewrite upd_at_cons, !names_unfold. f_equal. apply flat_map_upd_nth_eq. exact IH.
+Qed.
+
+(* one iteration of the loop with duplicate names disallowed keeps all names distinct *)
+Lemma grow_step_false_names tsep t parent pref nm last na t' p :
+  NoDup (names t) ->
+  grow_step tsep false t parent pref nm last na = Ret (t', p) ->
+  NoDup (names t').
+Proof.
+  intros Hn. unfold grow_step.
+  destruct (find_all nm t) as [|q [|q' r]] eqn:F.
+  - destruct (is_nil nm); [discriminate|].
+    destruct (subtree_at t parent) as [pt|] eqn:Hp; [|discriminate].
+    intros H. inversion H; subst. clear H.
+    eapply Permutation_NoDup; [apply Permutation_sym; eapply names_add_kid; exact Hp|].
+    rewrite names_unfold. cbn. constructor; [|exact Hn]. now apply find_all_nil.
+  - destruct (str_eqb _ _); [|discriminate]. intros H. inversion H; subst. exact Hn.
+  - discriminate.
+Qed.
+
+Lemma grow_false_names tsep na : forall rest t parent done t' p,
+  NoDup (names t) ->
+  grow tsep false t parent done rest na = (t', Ret p) ->
+  NoDup (names t').
+Proof.
+  induction rest as [|nm rest IH]; intros t parent done t' p Hn H; cbn [grow] in H.
+  - inversion H; subst. exact Hn.
+  - destruct (grow_step tsep false t parent (done ++ [nm]) nm (is_nil rest) na) as [[t1 p1]|e] eqn:Hs;
+      [|discriminate].
+    apply (IH t1 p1 (done ++ [nm]) t' p); [|exact H].
+    eapply grow_step_false_names; eauto.
+Qed.
+
+(* C05_no_dup_names (distinctness part): with duplicate_name_allowed = False, a tree with
+   distinct names still has distinct names after an accepted call *)
+Theorem add_path_false_names t tsep path sep na t' p :
+  NoDup (names t) ->
+  add_path_to_tree t tsep path sep false na = (t', Ret p) ->
+  NoDup (names t').
+Proof.
+  intros Hn. unfold add_path_to_tree. destruct (is_nil path); [discriminate|].
+  destruct (branch_of path sep) as [|b0 rest]; [discriminate|].
+  destruct (negb (str_eqb b0 (tname t))); [discriminate|].
+  destruct (grow tsep false t [] [b0] rest na) as [t1 [p1|e]] eqn:Hg; [|discriminate].
+  intros H. inversion H; subst. rewrite names_set_attrs.
+  eapply grow_false_names; eauto.
+Qed.
+
+Theorem add_rows_false_names tsep sep : forall rows t acc t' ps,
+  NoDup (names t) ->
+  add_rows t tsep sep false rows acc = (t', Ret ps) ->
+  NoDup (names t').
+Proof.
+  induction rows as [|[path na] rows IH]; intros t acc t' ps Hn H; cbn [add_rows] in H.
+  - inversion H; subst. exact Hn.
+  - destruct (add_path_to_tree t tsep path sep false na) as [t1 [p|e]] eqn:Ha; [|discriminate].
+    eapply IH; [|exact H]. eapply add_path_false_names; eauto.
+Qed.
